@@ -398,6 +398,19 @@ func formatGHReviewBody(version string, summary Summary, showDuplicates bool) st
 }
 
 func (gr GithubReporter) generalComment(ctx context.Context, body string) error {
+	// Don't post the same general comment again on every run: look for an identical one first.
+	listCtx, listCancel := gr.reqContext(ctx)
+	existing, _, err := gr.client.Issues.ListComments(listCtx, gr.owner, gr.repo, gr.prNum, nil)
+	listCancel()
+	if err == nil {
+		for _, ec := range existing {
+			if ec.GetBody() == body {
+				slog.Debug("General comment already exists", slog.String("body", body))
+				return nil
+			}
+		}
+	}
+
 	comment := github.IssueComment{
 		Body: github.Ptr(body),
 	}
@@ -407,7 +420,7 @@ func (gr GithubReporter) generalComment(ctx context.Context, body string) error 
 	reqCtx, cancel := gr.reqContext(ctx)
 	defer cancel()
 
-	_, _, err := gr.client.Issues.CreateComment(reqCtx, gr.owner, gr.repo, gr.prNum, &comment)
+	_, _, err = gr.client.Issues.CreateComment(reqCtx, gr.owner, gr.repo, gr.prNum, &comment)
 	return err
 }
 
